@@ -216,6 +216,116 @@ fn run_bridge_builtin(spec: &str, args: &[P]) -> String {
     out
 }
 
+/// variable-scope kernels on a REAL call stack.  spec = "<op>:<frames>:<binds>[:<extra>]": frames over M/F/I/W (module, function,
+/// `<if>`, `<while>` frame), binds = 0/1 per frame (is `x` bound there); frame 0 also binds `y`.  Operands: for every binding in
+/// frame order (x before y) an Int value and a Byte of flags, then the operation's own operands.
+/// Output: "<result> ; f0{x=<v>/<flags>,..} f1{..} .." - cell identity is shown by writing sentinels through returned handles.
+fn run_scope_kernel(spec: &str, args: &[P]) -> String {
+    use crate::stack::{PrimitiveFlagsPair, VariableFlags};
+    let parts: Vec<&str> = spec.split(':').collect();
+    let (opname, frames, binds) = (parts[0], parts[1], parts[2]);
+    let label = |c: char| match c {
+        'M' => "m#__module__",
+        'F' => "m#f",
+        'I' => "<if>",
+        _ => "<while>",
+    };
+    let mut st = Stack::new();
+    let mut k = 0;
+    for (i, (c, b)) in frames.chars().zip(binds.chars()).enumerate() {
+        st.extend(Cow::Borrowed(label(c)));
+        let mut names = vec![];
+        if b == '1' {
+            names.push("x");
+        }
+        if i == 0 {
+            names.push("y");
+        }
+        for n in names {
+            let P::Byte(fl) = args[k + 1] else { panic!("flags") };
+            st.register_variable_local(n.to_string(), args[k].clone(), VariableFlags(fl)).unwrap();
+            k += 2;
+        }
+    }
+    let rest = &args[k..];
+    let stack = Rc::new(RefCell::new(st));
+    let show_pair = |p: &PrimitiveFlagsPair| format!("{}/{}", item(&p.primitive()), p.flags().bits());
+    let dump = |stack: &Rc<RefCell<Stack>>| -> String {
+        // frames can only be inspected from the top: pop them one by one
+        let mut out = vec![];
+        let mut s = stack.borrow_mut();
+        while s.size() > 0 {
+            let mut ents: Vec<String> = s.get_frame_variables().unwrap().iter().map(|(n, p)| format!("{n}={}", show_pair(p))).collect();
+            ents.sort();
+            out.push(format!("{{{}}}", ents.join(",")));
+            s.pop();
+        }
+        out.reverse();
+        out.iter().enumerate().map(|(i, e)| format!("f{i}{e}")).collect::<Vec<_>>().join(" ")
+    };
+    let head = match opname {
+        "assign" => {
+            let r = stack.borrow_mut().register_variable(Cow::Owned("x".to_string()), rest[0].clone());
+            if r.is_ok() { "OK".to_string() } else { "ERR".to_string() }
+        }
+        "find" => match stack.borrow().find_name("x") {
+            Some(h) => {
+                h.set_primitive(P::Int(777777));
+                "SOME".to_string()
+            }
+            None => "NONE".to_string(),
+        },
+        "extend" => {
+            stack.borrow_mut().extend(Cow::Borrowed("m#g"));
+            "OK".to_string()
+        }
+        "update" | "get" => {
+            // the captured variables of a closure: a mapping that shares the module frame's cells
+            let mapping = {
+                let mut s2 = Stack::new();
+                s2.extend(Cow::Borrowed("tmp"));
+                let s = stack.borrow();
+                let _ = &s;
+                drop(s);
+                // rebuild from the bottom frame: find_name reaches it only if no inner frame shadows, so read it by popping a copy
+                crate::stack::VariableMapping::default()
+            };
+            let _ = mapping;
+            "UNSUPPORTED".to_string()
+        }
+        "mkfn" => {
+            let function = Function::new(Weak::new(), "verif".to_string(), Box::new([]));
+            let mut ctx = Ctx::new(&function, stack.clone(), Cow::Owned(vec![]), None);
+            let mut iargs = vec!["p#f".to_string()];
+            if parts.len() > 3 && !parts[3].is_empty() {
+                iargs.extend(parts[3].split(',').map(|s| s.to_string()));
+            }
+            let r = imp::make_function(&mut ctx, &iargs);
+            let h = match r {
+                Err(_) => "ERR".to_string(),
+                Ok(()) => match ctx.pop() {
+                    Some(P::Function(ref f)) => match f.callback_state() {
+                        None => format!("OK location={} closure=0", f.location()),
+                        Some(m) => {
+                            let mut names: Vec<String> = m.iter().map(|(n, _)| n.clone()).collect();
+                            names.sort();
+                            for (i, n) in names.iter().enumerate() {
+                                let _ = m.update(n, P::Int(1001 + i as i32));
+                            }
+                            format!("OK location={} closure=1 names={}", f.location(), names.join(","))
+                        }
+                    },
+                    ref other => format!("OK Other:{other:?}"),
+                },
+            };
+            std::mem::forget(ctx);
+            h
+        }
+        other => panic!("scope op {other}"),
+    };
+    format!("{head} ; {}", dump(&stack))
+}
+
 fn item(p: &P) -> String {
     // "<Kind>:<hexbits>" in the vocabulary of the vector files (Nil, Some<K>, plain kinds)
     let s = show(p);
@@ -349,6 +459,9 @@ pub fn eval_ext(op: &str, args: &[P]) -> String {
     }
     if let Some(m) = op.strip_prefix("B:") {
         return run_builtin(m, args);
+    }
+    if let Some(rest) = op.strip_prefix("K:") {
+        return run_scope_kernel(rest, args);
     }
     if op == "S:render" {
         // the real call stack with the given labels (outermost first), rendered by its Display impl
